@@ -1007,3 +1007,6 @@ CASES += [
 CASES += [
  dict(id='mut-parse-tree-export-not-rendered', kind='fire', file=M, old='        let graph = SymbolicParseTree::new(&input_parsed.bdd);\n\n        graph.render_dot(&mut f)?;\n', new='        let graph = SymbolicParseTree::new(&input_parsed.bdd);\n        let _ = &graph;\n', expect={'C14': 'export written'}, control=False),
 ]
+CASES += [
+ dict(id='mut-header-label-not-printed', kind='fire', file=M, old='        print!(" {}|", pad_right(free_var, len));\n', new='        let _ = len;\n', expect={'C10': 'column names'}, control=False),
+]
